@@ -66,4 +66,10 @@ CHECKS = {
         "text": "Structured and random magnitudes (integers straddling every type limit, primes up to 2^64-59, powers around FLT/DBL/LDBL max/min, roots, pi powers) are reified for 8 integer and 3 floating types: the exponent vector, is_integer/is_rational/numerator/denominator/integer_part, representable_in and the guarded get_value (constant-evaluated and at run time) are compared with an exact model; every not-representable (magnitude, type) becomes a get_value reject probe; mag<a>()*mag<b>() == mag<a*b>() type identity is checked on a slice.",
         "note": "Trusted: vf/model.py + decimal/Fraction arithmetic with stated ulp tolerances; x87 80-bit long double.",
     },
+    "C16": {
+        "module": ("vf.props.c16", "C16"), "engine": "planeB+planeC",
+        "technique": "runtime trace monitoring: can_store_value_in and guarded as/in/implicit values of constants reified per (constant, unit, type) and judged by exact arithmetic; composition results reified (unit + stored number); compile-outcome probes for the must-not-compile half",
+        "text": "Library constants and make_constant of generated units are paired with target units whose ratio to the constant is known exactly (type-limit-straddling integers, rationals, huge primes, irrational, float-limit powers of ten); for all 11 types can_store_value_in and the three conversion spellings are compared with the exact ratio; each not-representable case is compiled as a reject probe for as<T>, in<T> and implicit conversion; products/quotients with numbers, quantities, makers, magnitudes and other constants must keep the stored number and yield the model unit.",
+        "note": "Trusted: vf/model.py, decimal/Fraction oracle with the C11 tolerances; constants' own units are read from the library (no claim is made about their numeric definitions).",
+    },
 }
